@@ -7,7 +7,7 @@ props = [json.loads(l) for l in open(os.path.join(ROOT, "properties.jsonl"))]
 CHECKS = {
  "C02": dict(
    category="proof",
-   text="Coq (about 75 theorems, all parameters): on the EXECUTABLE models that are run against the crate, BINV returns x exactly when the uniform lies in the x-th cell of the binomial cdf, HIN exactly on the x-th cell of the hypergeometric cdf, Knuth returns k after exactly k+1 words with the k-th partial product above and the (k+1)-st not above exp(-lambda) (Props/C02_model.v); and as real-number identities: BINV's recurrence equals the binomial pmf and the coded loop returns x exactly on the x-th cell of the cdf; the p>0.5 flip; the geometric power-of-two block decomposition and the leading-zero counts of StandardGeometric; both hypergeometric symmetries, the bijection of the coded affine reflection (all four swap combinations, integer tie rule) onto the support, HIN recurrence and start values; Zeta proposal mass x acceptance = C x^-s with acceptance <= 1; Zipf hat mass, inverse and acceptance mass; Knuth's product form. All seven samplers (incl. BTPE, H2PE, Ahrens-Dieter PD) are modelled as decision trees and tied to the code pathwise: same integer and same number of RNG words on identical parameter bits and words, on exhaustive small parameter sets and grids on both sides of every method switch.",
+   text="Coq (about 75 theorems, all parameters): on the EXECUTABLE models that are run against the crate, BINV returns x exactly when the uniform lies in the x-th cell of the binomial cdf, HIN exactly on the x-th cell of the hypergeometric cdf, Knuth returns k after exactly k+1 words with the k-th partial product above and the (k+1)-st not above exp(-lambda), the two counting loops of Geometric return the number of leading uniforms above p resp. below (1-p)^(2^k), Zeta and Zipf return x only for a proposal floor(u^(-1/(s-1))) resp. floor(H^-1(p t)+1) accepted with v <= zeta_accept resp. y < ratio (Props/C02_model.v); and as real-number identities: BINV's recurrence equals the binomial pmf and the coded loop returns x exactly on the x-th cell of the cdf; the p>0.5 flip; the geometric power-of-two block decomposition and the leading-zero counts of StandardGeometric; both hypergeometric symmetries, the bijection of the coded affine reflection (all four swap combinations, integer tie rule) onto the support, HIN recurrence and start values; Zeta proposal mass x acceptance = C x^-s with acceptance <= 1; Zipf hat mass, inverse and acceptance mass; Knuth's product form. All seven samplers (incl. BTPE, H2PE, Ahrens-Dieter PD) are modelled as decision trees and tied to the code pathwise: same integer and same number of RNG words on identical parameter bits and words, on exhaustive small parameter sets and grids on both sides of every method switch.",
    note="Not proved: that the BTPE/H2PE/PD hats dominate and their Stirling squeezes (paper lemmas); those samplers are tied pathwise only. Probability bridge B1-B4 not formalised. Known finding F10 (Zeta precision loss for huge proposals).",
    technique="Coq proof (pmf recurrences, reflection bijection, rejection identities) + pathwise model/implementation correspondence",
    design="DESIGN.md §6 C02"),
@@ -19,7 +19,7 @@ CHECKS = {
    design="DESIGN.md §6 C04, App. B"),
  "C05": dict(
    category="proof",
-   text="Coq: ziggurat first-pass return probability from the regenerated tables (>= 0.985 / 0.977), word bounds of rand's Canon and Lemire reductions, termination of the tree descent, and (Props/C02_identities.v) the inner-loop characterisations of BINV, Knuth and the geometric split; every sampler model carries explicit loop fuel and C01/C02's correspondence compares word consumption on every case. The parts that are NOT proved (acceptance constants of the paper-grade rejection samplers, CPU time) are decided by the direct oracle: counting RNG with a 10^5-word limit and a wall-clock watchdog around the real sample() over parameter grids incl. the integer extremes, random and single-word-adversarial streams, mean words <= 24.",
+   text="Coq: ziggurat first-pass return probability from the regenerated tables (>= 0.985 / 0.977), word bounds of rand's Canon and Lemire reductions, termination of the tree descent, and (Props/C02_identities.v) the inner-loop characterisations of BINV, Knuth and the geometric split; on the executable models every proposal of BTPE and of H2PE reads exactly two words and nothing else reads any, for every word list and all parameters; every sampler model carries explicit loop fuel and C01/C02's correspondence compares word consumption on every case. The parts that are NOT proved (acceptance constants of the paper-grade rejection samplers, CPU time) are decided by the direct oracle: counting RNG with a 10^5-word limit and a wall-clock watchdog around the real sample() over parameter grids incl. the integer extremes, random and single-word-adversarial streams, mean words <= 24.",
    note="Partial by design: loop-bound theorems where elementary, exploration (watchdog) for the rest. Known finding F9 (Binomial u64::MAX walk) listed. Out-of-envelope observation: Poisson PD step H acceptance collapses for lambda > 1e17 (DESIGN.md).",
    technique="Coq proof (table reflection, range-reduction word bounds) + counting-RNG/watchdog exploration on the real code",
    design="DESIGN.md §6 C05"),
@@ -37,7 +37,7 @@ CHECKS = {
    design="DESIGN.md §6 C11"),
  "C12": dict(
    category="proof",
-   text="Coq: norm identities of the circle/sphere transforms, angle doubling, z = 1-2s, accepted points inside the disc/ball, the exact [-1,1) draw, all lifted by induction over the rejection loop to every result of the four sampler models; models tied pathwise to the crate; norm predicate (4 ulp) on the real output incl. adversarial words.",
+   text="Coq: norm identities of the circle/sphere transforms, angle doubling, z = 1-2s, accepted points inside the disc/ball, the exact [-1,1) draw, all lifted by induction over the rejection loop to every result of the four sampler models; the rejection stage of each model is characterised completely (Props/C12_events.v): the iteration that draws a candidate returns it (or its transform) exactly when it passes the test of the code and otherwise the loop behaves as the loop on the remaining words, so the output is the first candidate of the stream inside the region; models tied pathwise to the crate; norm predicate (4 ulp) on the real output incl. adversarial words.",
    note="Uniformity reduces to classical geometric facts not formalised (B-class).",
    technique="Coq proof (real algebra lifted over the loop) + pathwise correspondence + norm oracle",
    design="DESIGN.md §6 C12"),
@@ -73,7 +73,7 @@ CHECKS = {
    design="DESIGN.md §6 C01"),
  "C06": dict(
    category="proof",
-   text="Coq: all 4x257 ziggurat table entries regenerated from the source on every run satisfy monotonicity, F_i = f(X_i) to 1e-14, equal layer areas to 1e-8 and the end-point equations (proof by reflection through the verified interval evaluator); the exponential base strip + tail equals the layer area; the bit-slicing of the RNG word gives independent uniform layer index and mantissa (exactly 16 preimages each); the accepted sub-density of one ziggurat pass equals f(x)/(N v) for exact tables (telescoping identity, one- and two-sided, tail layer); Marsaglia's normal tail and the exponential tail transforms are proved. The sampler model is tied pathwise incl. crafted words per layer/branch; compiled table bits are read through the hook and compared with the regenerated literals.",
+   text="Coq: all 4x257 ziggurat table entries regenerated from the source on every run satisfy monotonicity, F_i = f(X_i) to 1e-14, equal layer areas to 1e-8 and the end-point equations (proof by reflection through the verified interval evaluator); the exponential base strip + tail equals the layer area; the bit-slicing of the RNG word gives independent uniform layer index and mantissa (exactly 16 preimages each); the accepted sub-density of one ziggurat pass equals f(x)/(N v) for exact tables (telescoping identity, one- and two-sided, tail layer); on the EXECUTABLE model of the loop every returned value comes from the tail routine, the rectangle test or (layer >= 1, rectangle failed) the wedge test, i.e. from the three events of that identity (Props/C06_model.v); Marsaglia's normal tail and the exponential tail transforms are proved. The sampler model is tied pathwise incl. crafted words per layer/branch; compiled table bits are read through the hook and compared with the regenerated literals.",
    note="Trusted: Coq kernel, Interval ops, stdlib real axioms; rs2coq table translation (cross-checked against compiled bits); normal base-strip integral checked numerically only; perturbation bound from 1e-8 table tolerance to the law not formalised.",
    technique="Coq proof by reflection over regenerated tables + algebraic density identity + pathwise correspondence",
    design="DESIGN.md §6 C06"),
